@@ -270,6 +270,38 @@ def gen_c15(tier, seed):
         for v in (0, 0x1234):
             start = 0x700000 + 4 * v
             g.add(['wh:500000:%x' % v, 'vr', 'vd', 'wn:%x:%x' % (start + 0x40, cnt), 'vd', 'vr', 'vd', 'wn:%x:%x' % (start + 0x19000, cnt), 'vd'], 'write-count')
+    # a machine reset between a write into the window and the host's next look: reset keeps RAM and the display-start
+    # register, and only a fetch may clear the indication
+    for v in (0, 0x1234, 0x8000):
+        start = 0x700000 + 4 * v
+        for ver in (1, 2):
+            for pre in ([], ['vr']):
+                g.add(['rs:%x' % ver, 'wh:500000:%x' % v] + pre + ['wb:%x:5a' % (start + 0x123), 'vd', 'rs:%x' % ver, 'vd', 'rh:500000', 'vr', 'vd',
+                       'rs:%x' % (3 - ver), 'vd'], 'reset-keeps-dirty')
+    # stores made by instructions (not by host-side pokes): block moves that start below the window and run into it or
+    # start inside and run out of it, word / halfword / byte moves and pushes at both window edges
+    for v in (0x40, 0x1234):
+        start = 0x700000 + 4 * v
+        end = start + 0x19000
+        code_at = 0x7f0000
+        for edge in (start, end):
+            for off in (-16, -8, -4, 0, 4):
+                for cnt in (1, 2, 3, 5):
+                    dst = edge + off
+                    base = ['wh:500000:%x' % v, 'vr', 'vd', 'ld:7e0000:%s' % ''.join('%02x' % r.randrange(1, 256) for _ in range(32))]
+                    regs = ['r:0:7e0000', 'r:1:%x' % dst, 'r:2:%x' % cnt, 'r:b:1e000', 'r:c:7e8000', 'r:f:%x' % code_at]
+                    g.add(base + ['ld:%x:301970707070' % code_at] + regs + ['k:3e8', 'st', 'vd', 'vr', 'vd'], 'block-move-into-window')
+            for off in (-4, -2, -1, 0, 1):
+                dst = edge + off
+                for code in ('844051', '864051', '874051'):
+                    base = ['wh:500000:%x' % v, 'vr', 'vd']
+                    regs = ['r:0:%x' % (r.randrange(1 << 32) | 0x01010101), 'r:1:%x' % (dst & ~3 if code == '844051' else dst & ~1 if code == '864051' else dst),
+                            'r:b:1e000', 'r:c:7e8000', 'r:f:%x' % code_at]
+                    g.add(base + ['ld:%x:%s70707070' % (code_at, code)] + regs + ['k:3e8', 'st', 'vd', 'vr', 'vd'], 'move-into-window')
+            for off in (-8, -4, 0):
+                base = ['wh:500000:%x' % v, 'vr', 'vd']
+                regs = ['r:0:%x' % (r.randrange(1 << 32) | 0x01010101), 'r:b:1e000', 'r:c:%x' % (edge + off), 'r:f:%x' % code_at]
+                g.add(base + ['ld:%x:a04070707070' % code_at] + regs + ['k:3e8', 'st', 'vd', 'vr', 'vd'], 'push-into-window')
     return g.result('Histories of display-start changes (halfword, split byte, low-byte-only, word), writes of all widths at '
                     'the window edges +-6 and at random RAM addresses, dirty polls and frame fetches; plus a sweep of '
                     'display-start values with marker bytes at both window edges.')
@@ -312,6 +344,7 @@ def gen_c20(tier, seed):
     # register traffic before the guest acknowledges it: the request must stay until IPCR is read
     cmds = [0x01, 0x02, 0x04, 0x05, 0x08, 0x0a, 0x10, 0x15, 0x20, 0x22, 0x30, 0x40, 0x45, 0x50]
     others = ['rb:200007', 'rb:20000f', 'rb:20002f', 'rb:200017', 'rb:200037', 'wb:200017:0', 'wb:200017:ff', 'wb:20000f:41',
+              'wb:20003b:ff', 'wb:20003f:ff', 'wb:20003b:b', 'wb:20003f:b', 'wb:200037:ff', 'wb:200013:ff', 'wh:20003c:b', 'ww:20003c:ff',
               'wb:20002f:41', 'qa:41', 'qb:41', 'pa', 'pb', 'mm:10:20', 'rh:400000']
     for ev in ('md:0', 'md:1', 'md:2', 'mu:0', 'mu:1', 'mu:2', 'md:7'):
         for pre in ([], ['md:1', 'rb:200013'], ['wb:20000b:5', 'wb:20002b:5']):
